@@ -240,14 +240,37 @@ def check(tier, seed, replay=None):
             if rnd.random() < 0.5:
                 rnd.shuffle(fields)
             seps = [rnd.choice(["-", "/", ":", " ", "T", "", ".", ", "]) for _ in fields]
-            fmt = "".join(f + q for f, q in zip(fields, seps))
             val = {"%Y": "%04d" % t.year, "%m": "%02d" % t.month, "%d": "%02d" % t.day, "%j": "%03d" % t.timetuple().tm_yday, "%e": "%2d" % t.day,
                    "%b": t.strftime("%b"), "%h": t.strftime("%b"), "%H": "%02d" % t.hour, "%M": "%02d" % t.minute, "%S": "%02d" % t.second}
-            text = "".join(val[f] + q for f, q in zip(fields, seps))
+            fn = "parse_time"
+            # a fraction of the second and / or an offset from UTC in the text (parse_time reads the offset and does not apply it,
+            # parse_time_with_zone gives the moment)
+            frac = None
+            if rnd.random() < 0.3:
+                w = rnd.choice([3, 3, 6])
+                dot = rnd.random() < 0.7
+                digs = "".join(rnd.choice("0123456789") for _ in range(w)) if rnd.random() < 0.8 else "0" * w
+                frac = (("%%.%df" % w) if dot else ("%%%df" % w), ("." if dot else "") + digs)
+            pf, pt = [], []
+            for f, q in zip(fields, seps):
+                pf.append(f); pt.append(val[f])
+                if f == "%S" and frac:
+                    pf.append(frac[0]); pt.append(frac[1])
+                pf.append(q); pt.append(q)
+            if rnd.random() < 0.35:
+                colon = rnd.random() < 0.4
+                oh, om = rnd.choice([(0, 0), (5, 0), (9, 30), (5, 45), (12, 0), (14, 0), (1, 0), (3, 30)])
+                lead = rnd.choice([" ", "", "Z"])
+                pf += [lead, "%:z" if colon else "%z"]
+                pt += [lead, "%s%02d%s%02d" % (rnd.choice("+-"), oh, ":" if colon else "", om)]
+                fn = rnd.choice(["parse_time", "parse_time_with_zone", "parse_time_with_zone"])
+            elif rnd.random() < 0.05:
+                fn = "parse_time_with_zone"
+            fmt, text = "".join(pf), "".join(pt)
             if rnd.random() < 0.12:
                 j = rnd.randrange(len(text)) if text else 0
                 text = text[:j] + rnd.choice(["x", "", "9", " "]) + text[j + 1:]       # a text that is not the formatting of a time: no meaning here (Unspec)
-            txt = "(parse_time %s %s)" % (json.dumps(text), json.dumps(fmt))
+            txt = "(%s %s %s)" % (fn, json.dumps(text), json.dumps(fmt))
             items.append((X.strip(EP.parse(txt, table)), ("null",), [], [], txt))
             if rnd.random() < 0.3:
                 txt = "(format_time (parse_time %s %s) %s)" % (json.dumps(text), json.dumps(fmt), json.dumps(fmt))
